@@ -60,7 +60,7 @@ func zzCRDRef(name string) xpv1.TypedReference {
 // requests. A role another owner controls is left untouched.
 //
 //gosym:harness
-//gosym:cover rejected granted family-same-org family-other-org foreign-role allow-list-missing
+//gosym:cover rejected granted family-same-org family-other-org foreign-role allow-list-missing member-of-another-family
 func HarnessC18Reconcile() {
 	s := kube.New()
 	s.Register(&v1.ProviderRevision{}, &v1.ProviderRevisionList{}, "pkg.crossplane.io", "ProviderRevision")
@@ -98,9 +98,14 @@ func HarnessC18Reconcile() {
 	member := &v1.ProviderRevision{ObjectMeta: metav1.ObjectMeta{Name: "provider-y-rev1", UID: "uid-member"}}
 	member.Spec.Package = zzPackages[mPkg]
 	member.Status.ObjectRefs = []xpv1.TypedReference{zzCRDRef("widgets.member.example.org")}
-	memberInFamily := zz.Bool("member.inFamily")
-	if memberInFamily {
+	memberFamily := zz.Choose("member.family", 3) // no family label, ours, another family
+	memberInFamily := memberFamily == 1
+	switch memberFamily {
+	case 1:
 		member.Labels = map[string]string{v1.LabelProviderFamily: zzFamily}
+	case 2:
+		member.Labels = map[string]string{v1.LabelProviderFamily: zzFamily + "-other"}
+		zz.Cover("member-of-another-family")
 	}
 	s.Put(member)
 
